@@ -630,6 +630,14 @@ func seeds4() [][]byte {
 		{{Code: 82, Data: []byte{1, 2, 'c', 'i'}}, {Code: 61, Data: []byte{1, 2, 0, 0, 0, 0xa, 1}}, {Code: 12, Data: []byte("host")}, {Code: 50, Data: []byte{10, 10, 10, 101}}, {Code: 116, Data: []byte{1}}},
 		{{Code: 54, Data: []byte{10, 10, 10, 1}}, {Code: 50, Data: []byte{10, 10, 10, 250}}, {Code: 12, Data: []byte{}}, {Code: 81, Data: []byte{0, 0, 0, 3, 'f', 'o', 'o', 0}}, {Code: 119, Data: []byte{3, 'c', 'o', 'm', 0}}},
 		{{Code: 54, Data: []byte{192, 0, 2, 9}}, {Code: 57, Data: []byte{0, 0}}, {Code: 55, Data: []byte{108}}},
+		// PXE clients: the vendor class in full, cut at every colon, and with/without option 93
+		{{Code: 60, Data: []byte("PXEClient:Arch:00007:UNDI:003016")}, {Code: 93, Data: []byte{0, 7}}, {Code: 97, Data: make([]byte, 17)}},
+		{{Code: 60, Data: []byte("PXEClient:Arch:00007:UNDI:003016")}},
+		{{Code: 60, Data: []byte("PXEClient:Arch:00007")}, {Code: 93, Data: []byte{0}}},
+		{{Code: 60, Data: []byte("PXEClient:Arch")}},
+		{{Code: 60, Data: []byte("PXEClient:")}},
+		{{Code: 60, Data: []byte("PXEClient")}, {Code: 93, Data: []byte{}}},
+		{{Code: 60, Data: []byte("HTTPClient:Arch:00016")}, {Code: 60, Data: []byte("dup")}},
 	}
 	n := 0
 	for _, t := range types {
